@@ -16,6 +16,7 @@ const (
 	opChoiceCase  // choice ch { case cs { container } }
 	opChoiceShort // choice ch { container }  (implicit case)
 	opUsesNested  // grouping whose body uses another grouping that holds the node
+	opAugment2    // augment written in a second augmenting module (b2), so that augments chain across three modules
 	nOps
 )
 
@@ -25,10 +26,14 @@ const (
 	topRPCInput
 	topRPCOutput
 	topNotification
+	topRPCInputImplicit  // rpc that writes no input: only an augment can put something there
+	topRPCOutputImplicit // rpc that writes no output
 	nTops
 )
 
 type hcLevel struct {
+	extraKind int // last level only: 0 leaf, 1 leaf-list, 2 list - the node l<i> next to the next level
+	extraCfg  int // its own config statement
 	name  string
 	op    int
 	cfg   int      // 0 absent, 1 true, 2 false
@@ -44,6 +49,7 @@ type hcSchema struct {
 	mBody  string
 	sBody  string
 	aBody  string
+	bBody  string
 	gBody  string
 	ngrp   int
 }
@@ -59,13 +65,18 @@ func hcCfgText(c int) string {
 }
 
 // hcPath spells the absolute schema path of steps as seen from module `from`
-// (m: prefix m; a imports m as mm and has own prefix a).
+// (a imports m as mm; b2 imports m as mm and a as aa; own prefix = module name).
 func hcPath(steps, nsOf []string, from string) string {
 	p := ""
 	for i, s := range steps {
 		pre := nsOf[i]
-		if from == "a" && pre == "m" {
-			pre = "mm"
+		if pre != from {
+			switch pre {
+			case "m":
+				pre = "mm"
+			case "a":
+				pre = "aa"
+			}
 		}
 		p += "/" + pre + ":" + s
 	}
@@ -81,7 +92,14 @@ func (sc *hcSchema) gen(i int, inG2 bool) string {
 	lv := sc.levels[i]
 	idx := string([]byte{'1' + byte(i)})
 	inner := func(childInG2 bool) string {
-		return "container " + lv.name + " {" + hcCfgText(lv.cfg) + " leaf l" + idx + " { type string; } " + sc.gen(i+1, childInG2) + "}"
+		extra := "leaf l" + idx + " {" + hcCfgText(lv.extraCfg) + " type string; } "
+		switch lv.extraKind {
+		case 1:
+			extra = "leaf-list l" + idx + " {" + hcCfgText(lv.extraCfg) + " type string; } "
+		case 2:
+			extra = "list l" + idx + " {" + hcCfgText(lv.extraCfg) + " key k; leaf k { type string; } } "
+		}
+		return "container " + lv.name + " {" + hcCfgText(lv.cfg) + " " + extra + sc.gen(i+1, childInG2) + "}"
 	}
 	usesText := func(g string) string {
 		if inG2 {
@@ -104,14 +122,18 @@ func (sc *hcSchema) gen(i int, inG2 bool) string {
 		g, h := "g"+idx, "h"+idx
 		sc.gBody += "grouping " + h + " { " + inner(true) + " } grouping " + g + " { uses " + h + "; } "
 		return usesText(g)
-	case opAugment:
+	case opAugment, opAugment2:
 		parentSteps, parentNs := []string{}, []string{}
 		if i > 0 {
 			parentSteps, parentNs = sc.levels[i-1].steps, sc.levels[i-1].nsOf
 		} else {
 			parentSteps, parentNs = sc.topSteps()
 		}
-		sc.aBody += "augment " + hcPath(parentSteps, parentNs, "a") + " { " + inner(false) + " } "
+		if lv.op == opAugment {
+			sc.aBody += "augment " + hcPath(parentSteps, parentNs, "a") + " { " + inner(false) + " } "
+		} else {
+			sc.bBody += "augment " + hcPath(parentSteps, parentNs, "b2") + " { " + inner(false) + " } "
+		}
 		return ""
 	}
 	return ""
@@ -119,9 +141,9 @@ func (sc *hcSchema) gen(i int, inG2 bool) string {
 
 func (sc *hcSchema) topSteps() ([]string, []string) {
 	switch sc.top {
-	case topRPCInput:
+	case topRPCInput, topRPCInputImplicit:
 		return []string{"r", "input"}, []string{"m", "m"}
-	case topRPCOutput:
+	case topRPCOutput, topRPCOutputImplicit:
 		return []string{"r", "output"}, []string{"m", "m"}
 	case topNotification:
 		return []string{"nt"}, []string{"m"}
@@ -140,8 +162,20 @@ func hcGenerate(n int) *hcSchema {
 		if dataTop {
 			lv.cfg = symChoice(3)
 		}
-		if lv.op == opAugment {
+		if i == n-1 {
+			lv.extraKind = symChoice(3)
+			if dataTop {
+				lv.extraCfg = symChoice(3)
+			}
+		}
+		if i == 0 && (sc.top == topRPCInputImplicit || sc.top == topRPCOutputImplicit) {
+			assume(lv.op == opAugment || lv.op == opAugment2) // nothing is written there inline
+		}
+		if lv.op == opAugment || lv.op == opAugment2 {
 			ctx = "a"
+			if lv.op == opAugment2 {
+				ctx = "b2"
+			}
 			// an augment whose target path runs through the implicit case of a shorthand choice
 			// member is outside the claim (the library inserts implicit cases after augmentation)
 			for _, up := range sc.levels {
@@ -177,12 +211,15 @@ func hcGenerate(n int) *hcSchema {
 		sc.mBody += "rpc r { output { " + body + "} } "
 	case topNotification:
 		sc.mBody += "notification nt { " + body + "} "
+	case topRPCInputImplicit, topRPCOutputImplicit:
+		sc.mBody += "rpc r { } "
 	}
 	sc.texts = []string{
 		`module m { yang-version 1.1; namespace "urn:m"; prefix m; import g2 { prefix g2; } include s; ` + sc.mBody + `}`,
 		`submodule s { yang-version 1.1; belongs-to m { prefix m; } import g2 { prefix g2; } ` + sc.sBody + `}`,
 		`module a { yang-version 1.1; namespace "urn:a"; prefix a; import m { prefix mm; } import g2 { prefix g2; } ` + sc.aBody + `}`,
 		`module g2 { yang-version 1.1; namespace "urn:g2"; prefix g2; ` + sc.gBody + `}`,
+		`module b2 { yang-version 1.1; namespace "urn:b2"; prefix b2; import m { prefix mm; } import a { prefix aa; } import g2 { prefix g2; } ` + sc.bBody + `}`,
 	}
 	return sc
 }
@@ -218,5 +255,5 @@ func (sc *hcSchema) hcExpectRO(k int) bool {
 			return true
 		}
 	}
-	return sc.top == topRPCOutput
+	return sc.top == topRPCOutput || sc.top == topRPCOutputImplicit
 }
